@@ -68,6 +68,12 @@ func Walk(ctx context.Context, fileSystem fs.FS, prefix, delimiter, marker strin
 		}
 	}
 
+	// a prefix that reaches below one of the gateway's own directories
+	// matches no object
+	if withinSkipdir(root, skipdirs) {
+		return WalkResults{}, nil
+	}
+
 	err := fs.WalkDir(fileSystem, root, func(path string, d fs.DirEntry, err error) error {
 		if err != nil {
 			return err
@@ -299,6 +305,17 @@ func Walk(ctx context.Context, fileSystem fs.FS, prefix, delimiter, marker strin
 		Truncated:      truncated,
 		NextMarker:     newMarker,
 	}, nil
+}
+
+// withinSkipdir reports whether path is one of the skipped directories or
+// lies below one of them
+func withinSkipdir(path string, skipdirs []string) bool {
+	for _, s := range skipdirs {
+		if path == s || strings.HasPrefix(path, s+"/") {
+			return true
+		}
+	}
+	return false
 }
 
 func contains(a string, strs []string) bool {
